@@ -202,7 +202,7 @@ func (o *oracles) crashModel() *modelAt {
 func (c *crasher) restartAll() {
 	c.disabled = true
 	o := c.s.or
-	for _, sn := range c.snaps {
+	for si, sn := range c.snaps {
 		if c.s.res.Viol != nil || c.s.res.Infra != "" {
 			break
 		}
@@ -224,7 +224,7 @@ func (c *crasher) restartAll() {
 		if sn.torn != "" {
 			what += ", write of " + sn.torn + " cut short"
 		}
-		o.restartAndCheck(sn.dir, sn.before, sn.after, what)
+		o.restartAndCheckN(sn.dir, sn.before, sn.after, what, si%3 == 0)
 		sim.ReapChildren() // converter children of the closed instance
 		c.s.res.Count("crash_states_restarted", 1)
 		os.RemoveAll(sn.dir)
@@ -234,9 +234,51 @@ func (c *crasher) restartAll() {
 // restartAndCheck starts a manager on dir, drains it and compares it with
 // what was acknowledged (before) allowing the operation in flight (after).
 func (o *oracles) restartAndCheck(dir string, before, after *modelAt, what string) {
+	o.restartAndCheckN(dir, before, after, what, false)
+}
+
+// restartAndCheckN: with nest, the restart itself is killed again — the data
+// directory is copied at up to three I/O points of manager.New and of the
+// jobs the restarted service runs (state re-save, start-up merge, cache
+// compaction, tagging) at which it changed; each copy is restarted and
+// compared with the same model (nothing was acknowledged in between).
+func (o *oracles) restartAndCheckN(dir string, before, after *modelAt, what string, nest bool) {
 	s := o.s
 	o.inRestart = true
 	defer func() { o.inRestart = false }()
+	type nsnap struct{ dir, site string }
+	var nested []nsnap
+	if nest {
+		lastSig := treeSig(dir, false)
+		simrt.SetIOHook(func(site string, n uint64) {
+			if len(nested) >= 3 {
+				return
+			}
+			sig := treeSig(dir, false)
+			if sig == lastSig {
+				return
+			}
+			lastSig = sig
+			nd := fmt.Sprintf("%s-n%d", dir, len(nested))
+			if copyTree(dir, nd) == nil {
+				nested = append(nested, nsnap{nd, site})
+				s.res.Count("fault_kill_during_restart", 1)
+			}
+		})
+		simrt.ArmIO(true)
+		defer func() {
+			simrt.ArmIO(false)
+			if s.crash != nil {
+				simrt.SetIOHook(s.crash.ioHook)
+			}
+			for _, ns := range nested {
+				if s.res.Viol == nil && s.res.Infra == "" {
+					o.restartAndCheckN(ns.dir, before, after, what+", restarted and killed again at "+ns.site, false)
+				}
+				os.RemoveAll(ns.dir)
+			}
+		}()
+	}
 	if r := s.call(CBarrier, Op{K: "New", Name: dir}); r.Err != "" {
 		o.violate("restart", "restart-failed", what+": manager.New failed: "+r.Err)
 		return
@@ -261,6 +303,9 @@ func (o *oracles) restartAndCheck(dir string, before, after *modelAt, what strin
 			break
 		}
 		s.execQuiet(st)
+	}
+	if nest {
+		simrt.ArmIO(false)
 	}
 	sv := simrt.Save()
 	r := s.call(CBarrier, Op{K: "State"})
